@@ -6,7 +6,10 @@ import Driver.Util
 `case <name> kind=conn eps=L4,C4,L6,C6,..` declares loopback endpoints (live listener / closed port,
 IPv4 / IPv6).  Endpoint `i` is written `e<i>`; its port is written `@<i>` inside host strings and
 ports (the harness substitutes the real ephemeral port, the driver the stand-in `40000+i`; outputs are
-canonicalised back).  The per-address connect behaviour (`connectEnv`) is the environment table
+canonicalised back).  `conn <base>[:<path>] <res> <host> [from] [with=a] [steps..]`: `<path>` is the way the
+service is obtained from its factory (`ActixNet.Connect.Path`, default `s`); hosts are `s=` (a `String`
+request), `t=` (a `&'static str` request) or `h=<hostname>,<port|->` (a custom `Host` impl); `from` builds the
+request with `ConnectInfo::from`.  The per-address connect behaviour (`connectEnv`) is the environment table
 measured on this platform and re-checked by every correspondence run. -/
 namespace Driver.Tls
 open Driver ActixNet.Connect
@@ -141,6 +144,8 @@ inductive Step where
 
 structure ConnOp where
   via : String
+  /-- how the service is obtained from its factory (`via` = `<base>[:<path>]`, default `s`) -/
+  path : Path := .s
   res : Res
   host : Host
   withA : Option Addr
@@ -166,10 +171,27 @@ def parseSteps (c : ConnCase) : List String → Option (List Step)
     | some s, some r => some (s :: r)
     | _, _ => none
 
+/-- `<base>[:<path>]`: construction paths every connector has, plus the directly constructed
+`ResolverService::custom(r)` (`k`, `kc`) for `resolve` -/
+def parseVia (via : String) : Option (String × Path) :=
+  let (base, path?) : String × Option Path :=
+    match via.splitOn ":" with
+    | [b] => (b, some Path.s)
+    | [b, p] => (b, parsePath p)
+    | _ => (via, none)
+  match path? with
+  | none => none
+  | some p =>
+    if !(base == "full" || base == "resolve" || base == "tcp") then none
+    else if (p == .k || p == .kc) && base != "resolve" then none
+    else some (base, p)
+
 def parseConnOp (c : ConnCase) (ws : List String) : Option ConnOp :=
   match ws with
-  | _ :: via :: res :: host :: rest =>
-    if !(via == "full" || via == "resolve" || via == "tcp") then none else
+  | _ :: via0 :: res :: host :: rest =>
+    match parseVia via0 with
+    | none => none
+    | some (via, path) =>
     let res? : Option Res :=
       match stripPrefix "dflt=" res with
       | some ips => some (Res.dflt ((ips.splitOn ";").filter (· ≠ "")))
@@ -178,8 +200,9 @@ def parseConnOp (c : ConnCase) (ws : List String) : Option ConnOp :=
         else match stripPrefix "ok=" res with
           | some l => (parseList c.parseAddrT l).map (fun v => Res.script (some v))
           | none => none
+    -- `s=` a `String` request, `t=` a `&'static str` request (same `Host` parsing), `h=` a custom `Host` impl
     let host? : Option Host :=
-      match stripPrefix "s=" host with
+      match (stripPrefix "s=" host).orElse (fun _ => stripPrefix "t=" host) with
       | some s => (c.subst s).map hostOfString
       | none =>
         match stripPrefix "h=" host with
@@ -193,6 +216,10 @@ def parseConnOp (c : ConnCase) (ws : List String) : Option ConnOp :=
             | _, _ => none
           | none => none
         | none => none
+    -- `from` (first step): the request is made by `ConnectInfo::from(host)` instead of `ConnectInfo::new(host)`
+    let rest := match rest with
+      | "from" :: t => t
+      | _ => rest
     let (withA?, rest') : Option (Option Addr) × List String :=
       match rest with
       | w :: t =>
@@ -201,7 +228,13 @@ def parseConnOp (c : ConnCase) (ws : List String) : Option ConnOp :=
         | none => (some none, rest)
       | [] => (some none, [])
     match res?, host?, withA?, parseSteps c rest' with
-    | some res, some host, some withA, some steps => some { via := via, res := res, host := host, withA := withA, steps := steps }
+    | some res, some host, some withA, some steps =>
+      -- a `Default` path has no configured resolver: it goes with `dflt=` only; a directly constructed
+      -- custom resolver service needs a script (the bare TCP connector has no resolver at all)
+      let isDflt := match res with | .dflt _ => true | _ => false
+      if via != "tcp" && path.isDefault && !isDflt then none
+      else if (path == .k || path == .kc) && isDflt then none
+      else some { via := via, path := path, res := res, host := host, withA := withA, steps := steps }
     | _, _, _, _ => none
   | _ => none
 
@@ -247,7 +280,9 @@ def showHost (h : String) : String := if h.isEmpty then "~" else h
 
 def runConn (c : ConnCase) (op : ConnOp) : String :=
   let r := buildReq op
-  let lookup := lookupOf op.res
+  -- the resolver the service ends up with along its construction path
+  let dfl : Res := match op.res with | .dflt ips => .dflt ips | _ => .dflt []
+  let lookup := lookupOf (op.path.build dfl op.res).cfg
   let out : Option (List (String × Nat) × String × Option Addr) :=
     if op.via == "resolve" then
       let rs := resolve parseIpD lookup r
@@ -290,6 +325,8 @@ def kvGet (k : String) (ws : List String) : Option String :=
 
 `case <name> kind=acc max=<n|default> tmo=<ms|default>`; ops `ready`, `call <r|o> <r13|r12|o13|o12>`,
 `poll k`, `drop k`, `cflight k full|part|rest`, `garbage k <kind>`, `close k`, `advance ms`, `run ms`,
+`fnew` / `fset f ms` / `fclone f` / `fsvc f` (acceptor factories of this thread: `Acceptor::new`,
+`set_handshake_timeout`, `clone`, `ServiceFactory::new_service`), `call <r|o> <cli> s` (through service `s`),
 `echo k n seed`, `xfer k <s2c|c2s|both> n seed cap rchunk <d|b> <all|chunk|cflush|vec> <flush|shut> <exact|small>`
 (payload over an accepted stream through a back-pressuring / short-reading / buffering transport; the
 pass-through model answers `ok`; after `shut` the connection carries no further payload),
@@ -306,6 +343,9 @@ def canonNat (s : String) : Option Nat :=
 open ActixNet.Tls in
 structure AccCase where
   svc : Svc
+  /-- acceptor factories and the services built from them on this thread; factory 0 / service 0 are the
+  ones the case header builds (`Acceptor::new`, `set_handshake_timeout(tmo)`, `new_service`) -/
+  cfg : Cfg
   conns : Array Conn := #[]
   results : Array (Option Outcome) := #[]
   /-- connections whose stream was shut down by a transfer -/
@@ -377,6 +417,31 @@ def step (c : AccCase) (ws : List String) : AccCase × String :=
     if (lib == "r" || lib == "o") && (cli == "r13" || cli == "r12" || cli == "o13" || cli == "o12") then
       ({ c with svc := c.svc.call c.now, conns := c.conns.push {}, results := c.results.push none, fin := c.fin.push false }, s!"ok {c.conns.size}")
     else (c, "bad-op")
+  | ["call", lib, cli, sv] =>
+    -- through service `sv` of this thread: same counter, that service's timeout
+    match (canonNat sv).bind (c.cfg.svcs[·]?) with
+    | some tmo =>
+      if (lib == "r" || lib == "o") && (cli == "r13" || cli == "r12" || cli == "o13" || cli == "o12") then
+        ({ c with svc := c.svc.callT tmo c.now, conns := c.conns.push {}, results := c.results.push none, fin := c.fin.push false }, s!"ok {c.conns.size}")
+      else (c, "bad-op")
+    | none => (c, "bad-op")
+  | ["fnew"] =>
+    if c.cfg.facs.length < 8 then ({ c with cfg := c.cfg.step .new }, s!"ok f={c.cfg.facs.length}") else (c, "bad-op")
+  | ["fset", f, ms] =>
+    match canonNat f, canonNat ms with
+    | some f, some ms =>
+      if f < c.cfg.facs.length && 1 ≤ ms && ms ≤ 20000 then ({ c with cfg := c.cfg.step (.set f ms) }, "ok") else (c, "bad-op")
+    | _, _ => (c, "bad-op")
+  | ["fclone", f] =>
+    match canonNat f with
+    | some f =>
+      if f < c.cfg.facs.length && c.cfg.facs.length < 8 then ({ c with cfg := c.cfg.step (.clone f) }, s!"ok f={c.cfg.facs.length}") else (c, "bad-op")
+    | none => (c, "bad-op")
+  | ["fsvc", f] =>
+    match canonNat f with
+    | some f =>
+      if f < c.cfg.facs.length && c.cfg.svcs.length < 8 then ({ c with cfg := c.cfg.step (.svc f) }, s!"ok s={c.cfg.svcs.length}") else (c, "bad-op")
+    | none => (c, "bad-op")
   | ["poll", k] =>
     match k.toNat? with
     | some k =>
@@ -474,7 +539,12 @@ def parseAccHeader (rest : List String) : Option AccCase :=
     | some t => (canonNat t).filter (fun x => 1 ≤ x ∧ x ≤ 20000)
     | none => none
   match max?, tmo? with
-  | some m, some t => some { svc := { cap := m, tmo := t } }
+  | some m, some t =>
+    -- `Acceptor::new` (+ `set_handshake_timeout` unless `tmo=default`), then `new_service`
+    some { svc := { cap := m, tmo := t },
+           cfg := (match kvGet "tmo" rest with
+             | some "default" => ActixNet.Tls.Cfg.run {} [.new, .svc 0]
+             | _ => ActixNet.Tls.Cfg.run {} [.new, .set 0 t, .svc 0]) }
   | _, _ => none
 
 /-! ### engine -/
@@ -498,11 +568,19 @@ def validNameFor (lib : String) (h : String) : Bool :=
 
 def runTconn (ws : List String) : String :=
   match ws with
-  | [_, lib, srv, ca, names, host, payload] =>
+  | [_, lib0, srv, ca, names, host, payload] =>
+    -- `<lib>[:<path>]`: `TlsConnector::service(config)` (default, `k`), or the factory `TlsConnector::new(config)`
+    -- through `new_service` (`f`), with a clone of the factory (`cf`) or of the service (`fc`, `kc`)
+    let (lib, path?) : String × Option Path :=
+      match lib0.splitOn ":" with
+      | [l] => (l, some Path.k)
+      | [l, p] => (l, (parsePath p).filter fun p => p == .k || p == .f || p == .cf || p == .fc || p == .kc)
+      | _ => (lib0, none)
+    if path?.isNone then "bad-op" else
     if !((lib == "r" || lib == "o") && (srv == "r" || srv == "o") && (ca == "good" || ca == "bad")) then "bad-op" else
     let c0 : ConnCase := { eps := [] }
     let host? : Option Host :=
-      match stripPrefix "s=" host with
+      match (stripPrefix "s=" host).orElse (fun _ => stripPrefix "t=" host) with
       | some s => (c0.subst s).map hostOfString
       | none =>
         match stripPrefix "h=" host with
